@@ -83,7 +83,7 @@ def run(props: Optional[List[str]], repo_root: str = "/repo", jobs: int = 16, ve
     counts = {"ok": 0, "FAIL": 0, "skipped": 0}
     for name, verdict, status, detail in results:
         counts[verdict] += 1
-        if verbose or verdict == "FAIL":
+        if verbose or verdict in ("FAIL", "skipped"):
             print(f"  selftest {verdict:7s} {name}: {detail}")
     breaking = sum(1 for m in selected if m["expect"] == "violation")
     print(f"[selftest] variants={len(selected)} (breaking={breaking}, benign={len(selected) - breaking}) ok={counts['ok']} failed={counts['FAIL']} skipped={counts['skipped']} wall={time.time() - started:.1f}s")
